@@ -211,12 +211,29 @@ def _work(ctx: Ctx, item):
     ctx.hyp(one, cases(), max_examples=n, name="sourcemap")
 
 
+def _clients(ctx: Ctx, item=None):
+    """Claims, manufacturer filters and network mapping through each gateway client, with the link dropped and re-established in the
+    middle: the client's decoder (and what it has learnt from claims) lives as long as the client."""
+    from .. import clientopts as co
+    msgs = (co.standard_traffic(co.KEYED[:3] + co.CONVERTIBLE[:3], sources=(1, 2, 3), mfgs=(137, 1855, 229))
+            + [co.claim(2, 555, 229)] + co.standard_traffic(co.KEYED[:3] + co.CONVERTIBLE[:3], sources=(1, 2, 3), claims=False))
+    sets = [("defaults", lambda: {}),
+            ("build_network_map=True", lambda: {"build_network_map": True}),
+            ("exclude_manufacturer_code=['Garmin']", lambda: {"exclude_manufacturer_code": ["Garmin"]}),
+            ("include_manufacturer_code=['Maretron'], build_network_map=True", lambda: {"include_manufacturer_code": ["Maretron"], "build_network_map": True}),
+            ("exclude_manufacturer_code=['Maretron', 'Airmar']", lambda: {"exclude_manufacturer_code": ["Maretron", "Airmar"]})]
+    co.run(ctx, "C11", sets, msgs, reconnects=((), (6,), (4, 12)))
+
 def run(ctx: Ctx):
+    pmap(ctx, _clients, [None])
     n = 120 if ctx.quick else 6000
     pmap(ctx, _work, [(n,)] * 16)
 
 
 def replay(ctx: Ctx, case):
+    if case.get("clientopts"):
+        from .. import clientopts as co
+        return co.replay("C11", _clients, case)
     items = [traffic.item_from_json(i) for i in case["items"]]
     res, _ = run_case(case["config"], None, items, case["offsets"])
     return res
